@@ -247,7 +247,9 @@ def gen(seed, index, tier):
                         ["html", "tal", "gz", "script", "pyg"],
                         ["maildir-new", "maildir-folder", "maildir-message", "maildir-cur", "maildir-message-2"],
                         ["zip3-listing", "zip3-enc", "zip3-d64", "zip3-ok", "zip-gz-member", "zip-member"],
-                        ["gophermap", "url-named-file", "menu"]])
+                        ["gophermap", "url-named-file", "menu"],
+                        ["gz-upper", "gz-lower", "gz-upper", "gz", "menu"], ["gz-lower", "gz-upper", "menu"],
+                        ["tal", "tal-upper", "menu-root"]])
     for i in range(n):
         rq = gen_request(rng, focus)
         nb = len(rq["data"])
